@@ -60,6 +60,7 @@ class Fmt:
     def __init__(self, p=None, nmin=None, pos=None, neg=None, negzero=True, has_inf=True, has_nan=True):
         self.p, self.nmin, self.pos, self.neg = p, nmin, pos, neg
         self.negzero, self.has_inf, self.has_nan = negzero, has_inf, has_nan
+        self.exp_min = None
     def ulp_exp(self, ax: Fraction, n=None) -> int:
         """exponent u such that the neighbours of |x| are floor(|x|/2^u)*2^u and +2^u"""
         u = None
@@ -119,6 +120,11 @@ def fmt_of(d) -> Fmt:
         sc, nb = d['scale'], d['nbits']
         mx = Fraction((1 << (nb - 1)) - 1) * Fraction(2) ** sc
         return Fmt(nmin=sc - 1, pos=mx, neg=-mx, negzero=True, has_inf=False, has_nan=False)
+    if f == 'exp':
+        nb = d['nbits']; emax = ((1 << (nb - 1)) - 1) + d['eoff']; emin = 1 - ((1 << (nb - 1)) - 1) + d['eoff'] - 1
+        fm = Fmt(p=1, pos=Fraction(2) ** emax, neg=None, negzero=False, has_inf=False, has_nan=True)
+        fm.exp_min = Fraction(2) ** emin
+        return fm
     raise ValueError(f)
 
 def prescribed(rm: str, neg: bool, lo: int, exact_frac: Fraction) -> int:
@@ -174,6 +180,18 @@ def spec_round(d, x, sign: bool, n=None):
         if x == 'nan': return {'kind': 'nan'}
         if x in ('inf', '-inf'): return {'kind': 'inf', 's': x == '-inf', 'inexact': False, 'overflow': False}
         return {'kind': 'value', 'q': x, 'zero_sign': sign if x == 0 else None, 'inexact': False, 'overflow': False}
+    if d['fam'] == 'exp':
+        # powers of two in [2^emin, 2^emax] plus NaN; zero, negatives and out-of-range values become what the
+        # context's options say (NaN / smallest / largest): judged only on membership and on the flags
+        if x == 'nan': return {'kind': 'nan'}
+        if x in ('inf', '-inf'): return {'kind': 'subst'}
+        if x <= 0: return {'kind': 'nan'}
+        r, inexact = spec_round_unbounded(fmt, d['rm'], x, n)
+        if r == 0: return {'kind': 'nan'}      # (round_at above the operand) zero is not a power of two: NaN, as for a zero operand
+        if fmt.exp_min <= r <= fmt.pos:
+            return {'kind': 'value', 'q': r, 'zero_sign': None, 'inexact': inexact, 'overflow': False}
+        if d['ov'] == 'assert': return {'kind': 'error', 'name': 'ValueError'}
+        return {'kind': 'exp-range', 'lo': fmt.exp_min, 'hi': fmt.pos, 'below': r < fmt.exp_min}
     if x == 'nan':
         return {'kind': 'nan'} if fmt.has_nan else {'kind': 'subst'}
     if x in ('inf', '-inf'):
@@ -214,6 +232,14 @@ def judge(spec: dict, got) -> str | None:
     if k == 'subst':
         # substitute value or error is option-determined; only the overflow flag is judged
         if got[0] == 'ok' and spec.get('overflow') and not got[3]: return 'overflow flag not set on an overflowing operand'
+        return None
+    if k == 'exp-range':
+        if got[0] == 'err': return f'unexpected error {got[1]} for an out-of-range operand'
+        val, _ = canon_value(got[1])
+        end = spec['lo'] if spec['below'] else spec['hi']
+        if val != 'nan' and val != end: return f'out-of-range operand became {got[1]}, neither NaN nor the range end {end}'
+        if not got[3]: return 'overflow flag not set although the range was exceeded'
+        if not got[2]: return 'inexact flag not set although the value changed'
         return None
     if k == 'error':
         if got[0] == 'err' and got[1] == spec['name']: return None
